@@ -23,6 +23,15 @@ BOOL_HAND = ["function f(c) { if (%s %s %s) { return 1; } return 2; }" % (a, op,
              for op in ("&&", "||") for a in BOOL_OPERANDS[:4] for b in BOOL_OPERANDS[:4]]
 
 HAND = BOOL_HAND + [
+    # a signal read by an earlier statement of the block that holds its only assignment (seeded C06 m7: the pre-pass kept the block of
+    # the assignment but not its position), read later in that block, read in a loop that the assignment follows
+    "template T() { signal input in; signal output out; signal flag; var seen = flag; flag <-- 1; if (seen == 1) { out <== in; } else { out <== 2 * in; } }",
+    "template T() { signal input in; signal output out; signal flag; flag <-- 1; var seen = flag; if (seen == 1) { out <== in; } else { out <== 2 * in; } }",
+    "template T() { signal input in; signal output out; signal flag; var seen = flag + 0; var again = seen; flag <-- 3; if (again == 3) { out <== in; } else { out <== 2 * in; } }",
+    "template T(n) { signal input in; signal output out; signal flag; var seen = 0; for (var i = 0; i < 2; i++) { seen = seen + flag; } flag <-- 1; if (seen == 2) { out <== in; } else { out <== 0; } }",
+    # a ternary whose condition is a known field element other than 0 and 1 (seeded C06 m8)
+    "function f(c) { var flags = 6; var w = (flags & 4) ? 8 : 16; if (w == 16) { return 1; } return 2; }",
+    "function f(c) { var w = 5 ? 8 : 16; var v = 0 ? 8 : 16; if (w == v) { return 1; } return 2; }",
     "function f(c) { var x; if (c) { x = 1; } if (x == 1) { return 1; } return 2; }",
     "function f(c) { var x = 0; if (c) { x = 1; } if (x == 1) { return 1; } return 2; }",
     "function f(c) { var x = 3; var y = x * 2 + 1; if (y == 7) { return 1; } return 2; }",
